@@ -22,6 +22,55 @@ def _cstr(s):
     return bytes(s, "utf-8").decode("unicode_escape").encode("latin-1")
 
 
+def _channel_binding():
+    """tls_openssl.c tls_init_channel_binding: which channel binding a -PLUS mechanism uses for which
+    protocol version (RFC 5929 tls-unique = the first Finished message, up to TLS 1.2; RFC 9266
+    tls-exporter for TLS 1.3).  The choice needs a live TLS session of each version to be observed,
+    which no engine of the harness has: it is translated, and pinned by C07.pin_channel_binding."""
+    t = strip_comments(src("tls_openssl.c"))
+    fb = fn_body(t, "tls_init_channel_binding")
+    sw = re.search(r"switch\s*\(\s*ssl_version\s*\)\s*\{(.*?)\n    \}", fb, re.S)
+    if not sw:
+        raise ExtractError("tls_init_channel_binding: switch over ssl_version not found")
+    rows, names = [], []
+    cur = {}
+    for m in re.finditer(r'case\s+(\w+)\s*:|\*binding_prefix\s*=\s*"([^"]*)"\s*;|tls->channel_binding_size\s*=\s*(\d+)\s*;'
+                         r'|label\s*=\s*"([^"]*)"\s*;|labellen\s*=\s*(\d+)\s*;|(break)\s*;|(default)\s*:', sw.group(1)):
+        if m.group(1):
+            names.append(m.group(1))
+        elif m.group(2) is not None:
+            cur["prefix"] = m.group(2)
+        elif m.group(3):
+            cur["size"] = int(m.group(3))
+        elif m.group(4) is not None:
+            cur["label"] = m.group(4)
+        elif m.group(5):
+            cur["labellen"] = int(m.group(5))
+        elif m.group(6):
+            for n in names:
+                rows.append((n, cur.get("prefix", "?"), cur.get("size", 0), cur.get("label", ""), cur.get("labellen", 0)))
+            names, cur = [], {}
+        elif m.group(7):
+            names, cur = [], {}
+    if not rows:
+        raise ExtractError("tls_init_channel_binding: no version cases found")
+    flat = re.sub(r"\s+", "", fb)
+    m = re.search(r"if\(([^(){};]*)\)\{size_tlen;if\(SSL_session_reused\(tls->ssl\)\)\{len=(\w+)\(tls->ssl,"
+                  r"tls->channel_binding_data,tls->channel_binding_size\);\}else\{len=(\w+)\(tls->ssl,"
+                  r"tls->channel_binding_data,tls->channel_binding_size\);\}", flat)
+    cond, reused, fresh = m.groups() if m else ("?", "?", "?")
+    exporter = bool(re.search(r"\}else\{if\(SSL_export_keying_material\(tls->ssl,tls->channel_binding_data,"
+                              r"tls->channel_binding_size,label,labellen,NULL,0,0\)!=1\)", flat))
+    out = "/-- tls_init_channel_binding: per `case` of the switch over SSL_version: binding name, size, exporter label, its length -/\n"
+    out += "def cbCases : List (String × String × Nat × String × Nat) := [%s]\n" % ", ".join(
+        '("%s", "%s", %d, "%s", %d)' % r for r in rows)
+    out += "/-- condition under which the Finished message is used, the call for a resumed session, the call otherwise -/\n"
+    out += 'def cbFinishedWhen : String × String × String := ("%s", "%s", "%s")\n' % (cond, reused, fresh)
+    out += "/-- otherwise SSL_export_keying_material(ssl, data, size, label, labellen, NULL, 0, 0) -/\n"
+    out += "def cbExporterElse : Bool := %s\n" % ("true" if exporter else "false")
+    return out
+
+
 def _lean_bytes(b):
     return "[" + ", ".join(str(x) for x in b) + "]"
 
@@ -162,6 +211,7 @@ def gen_sasl():
     body += d("nsAuth : List UInt8", "XMPP_NS_AUTH", _lean_bytes(_ns(sh, "XMPP_NS_AUTH")))
     body += d("nsSasl : List UInt8", "XMPP_NS_SASL", _lean_bytes(_ns(sh, "XMPP_NS_SASL")))
     body += d("randHexTbl : List UInt8", "rand.c rand_byte2hex hex_tbl", _lean_bytes(tbl))
+    body += _channel_binding()
     body += "\nend Strophe.Gen.Sasl\n"
     write("Sasl", body)
 
